@@ -246,3 +246,11 @@ Proof.
     destruct (all_some (map (fun r0 => flp_reward (fst (fst r0)) (snd r0)) rows)) as [l|]; try discriminate; try reflexivity.
   inversion IH. reflexivity.
 Qed.
+
+(* mask-confined runs are runs the code accepts (so the bookkeeping / reward theorems stated over [run_all] apply) *)
+Lemma flp_run_is_run_all (I : flp_inst) (s : flp_st) (as_ : list nat) (s' : flp_st) :
+  flp_run I s as_ = Some s' -> flp_run_all I s as_ = Some s'.
+Proof. apply run_adm_run_all. Qed.
+Lemma mcp_run_is_run_all (I : mcp_inst) (s : mcp_st) (as_ : list nat) (s' : mcp_st) :
+  mcp_run I s as_ = Some s' -> mcp_run_all I s as_ = Some s'.
+Proof. apply run_adm_run_all. Qed.
